@@ -363,6 +363,11 @@ func (s *Stream) reset() error {
 		return fmt.Errorf("stream had unread pending data, unread slice len:%d ", len(s.pendingData.unread))
 	}
 	s.pendingData.Unlock()
+	// return error if the previous user left written but unflushed data: it would be sent ahead of
+	// the next user's data, or be swapped into the read buffer by ReleaseReadAndReuse
+	if unsentSize := s.sendBuf.Len(); unsentSize > 0 {
+		return fmt.Errorf("stream had unflushed data, size:%d ", unsentSize)
+	}
 
 	s.readDeadline = zeroTime
 	s.writeDeadline = zeroTime
